@@ -67,11 +67,7 @@ RULE = ("one case per shipped YAML file (verdict of the whole pipeline), per mut
         "trivially (Any); distinct = distinct protocol line")
 
 # keys of findings on the current tree that the lead has not yet repaired or listed as known (still reported)
-PENDING_FINDINGS: list[str] = [
-    # found in phase 2 (config fields vs. dataset constructor), reported to the lead, not yet repaired / listed
-    "config:dataset-class:CMRxRecon:default-init-TypeError",      # CMRxReconConfig.regex_filter is not a CMRxReconDataset parameter
-    "config:dataset-class:FakeMRIBlobs:default-init-TypeError",   # FakeMRIBlobsConfig lacks sample_size / num_coils / spatial_shape
-]
+PENDING_FINDINGS: list[str] = []
 
 STAGE = {1: "merge", 2: "operators", 3: "engine", 4: "blocks"}
 N_WORKERS = int(os.environ.get("VERIF_C20_WORKERS", "12"))
